@@ -6,7 +6,7 @@
 //! overflow, allocation failure, kill after a hang) to exactly one input.
 //!
 //! requests: `S seed lo hi` | `P a b lo hi` | `H entry lo hi` (batches),
-//!           `X entry hex` (one probe), `Q` (quit)
+//!           `X entry -hex [full]` (one probe), `T what` (self-test), `Q` (quit)
 
 use crate::faults::Tuning;
 use crate::seeds;
@@ -64,17 +64,20 @@ pub fn main(args: &[String]) -> ! {
         .spawn(move || {
             let journal = Journal::open(&journal_path);
             journal.set(J_IDLE);
-            let world = World::new(Tuning { thorough });
-            let d = seeds::digest(&world.seeds);
+            // digest 0 = probe-only worker: no seed list needed
+            let world = if want_digest == 0 { World::probe_only(Tuning { thorough }) } else { World::new(Tuning { thorough }) };
+            let d = if want_digest == 0 { 0 } else { seeds::digest(&world.seeds) };
             if d != want_digest {
                 mc_core::report::machinery_failure(&format!("worker: seed list differs from the parent's ({d} vs {want_digest})"));
             }
             let stdin = std::io::stdin();
             let stdout = std::io::stdout();
             {
+                // a parent that is gone (closed pipe) is not this worker's problem
                 let mut o = stdout.lock();
-                writeln!(o, "READY").unwrap();
-                o.flush().unwrap();
+                if writeln!(o, "READY {d}").and_then(|_| o.flush()).is_err() {
+                    return;
+                }
             }
             for line in stdin.lock().lines() {
                 let Ok(line) = line else { break };
@@ -104,12 +107,13 @@ pub fn main(args: &[String]) -> ! {
                 } else if let Some(rest) = line.strip_prefix("X ") {
                     let mut it = rest.split_whitespace();
                     let entry: usize = it.next().and_then(|x| x.parse().ok()).unwrap_or(usize::MAX);
-                    let bytes = hex::decode(it.next().unwrap_or("")).unwrap_or_default();
+                    let bytes = hex::decode(it.next().unwrap_or("-").trim_start_matches('-')).unwrap_or_default();
+                    let full = it.next() == Some("full");
                     if entry >= world.cat.len() {
                         mc_core::report::machinery_failure("worker: bad probe request");
                     }
                     journal.set(J_PROBE);
-                    let res = world.probe(entry, &bytes);
+                    let res = world.probe(entry, &bytes, full);
                     journal.set(J_IDLE);
                     json!({"probe": crate::c09::res_json(&res)})
                 } else {
@@ -119,8 +123,9 @@ pub fn main(args: &[String]) -> ! {
                     r.to_json()
                 };
                 let mut o = stdout.lock();
-                writeln!(o, "{reply}").unwrap();
-                o.flush().unwrap();
+                if writeln!(o, "{reply}").and_then(|_| o.flush()).is_err() {
+                    return;
+                }
             }
         })
         .unwrap();
